@@ -44,7 +44,7 @@ CLAUSES = {
     "OverflowNotRaised": ["C16"], "SpuriousOverflow": ["C16"], "RejectedButSent": ["C16"],
     "NotOpenNotRaised": ["C16", "C15"], "SpuriousNotOpen": ["C16"],
     "AtMostOne": ["C07"], "HealNotConnected": ["C07"], "HealNotTransmitting": ["C07"],
-    "HealNotReceiving": ["C07"], "AbandonedNotClosed": ["C07"], "HalfOpenNotClosed": ["C07"],
+    "HealNotReceiving": ["C07"], "AbandonedNotClosed": ["C07"], "HalfOpenNotClosed": ["C07"], "GaveUpConnecting": ["C07", "C15"],
     "DefectNotClosed": ["C06", "C07", "C17"], "DeliveredAfterDefect": ["C06", "C17"],
     "DeliverWithoutFrame": ["C13", "C17"], "FrameNotDelivered": ["C13", "C07"],
     "Misread": ["C03", "C13", "C17"], "UnhandledException": ["C17", "C07"],
@@ -64,7 +64,7 @@ CLAUSES.update({
     "CommandDuplicated": ["C11", "C02"], "WrongCommandFrame": ["C04", "C11", "C19"], "UnexplainedFrame": ["C01", "C04", "C09"],
     "HeartbeatMissing": ["C08"], "HeartbeatOffSchedule": ["C08"], "HeartbeatNoReset": ["C08"], "SpuriousHeartbeatReset": ["C08"],
     "RefreshMissing": ["C14"], "RefreshOrder": ["C14"], "PollMissing": ["C14"], "PollOffSchedule": ["C14"],
-    "StateAfterShutdown": ["C15"],
+    "StateAfterShutdown": ["C15"], "ShutdownRaised": ["C15"],
 })
 
 
